@@ -392,4 +392,13 @@ theorem reorder_sound (I : Interp A) (m : List Nat) (a : Op) :
     I.evalOp (reorder 0 .fermion m a) = (I.relabel m).evalOp a :=
   reorder_sound_gen I .fermion (fun _ => ⟨rfl, rfl⟩) m a
 
+/-- `reorder` for BosonOperator / QuadOperator (the constructor sorts by index): same statement,
+for interpretations in which factors of different modes commute — before and after relabelling. -/
+theorem reorder_sound_boson_quad (I : Interp A) (cls : Cls) (hc : cls = .boson ∨ cls = .quad)
+    (comm : ∀ f h : Factor, f.1 ≠ h.1 → I.g f * I.g h = I.g h * I.g f) (m : List Nat) (a : Op) :
+    I.evalOp (reorder 0 cls m a) = (I.relabel m).evalOp a := by
+  apply reorder_sound_gen I cls _ m a
+  intro t
+  rcases hc with h | h <;> subst h <;> exact ⟨rfl, evalT_sortF I comm t⟩
+
 end OFV.C03
